@@ -21,6 +21,9 @@ pub struct Step {
     /// the operation goes through a freshly opened handle (another process / a restart)
     #[serde(default)]
     pub fresh: bool,
+    /// the value this step writes (if it writes) is EMPTY: zero bytes are a legal value
+    #[serde(default)]
+    pub empty: bool,
 }
 
 #[derive(Clone, Debug, Serialize, Deserialize)]
@@ -41,13 +44,13 @@ const GRANS: &[i64] = &[1, 1_000_000_000, 2_000_000_000];
 const PHASES: &[i128] = &[0, 300_000_000, 999_999_999, 1_500_000_000];
 
 fn gen_hist() -> impl Strategy<Value = Hist> {
-    (0u8..4, 0u8..3, 0u8..4, 0u8..3, 0u8..3, prop::collection::vec((0u8..6, prop_oneof![12 => 0u8..7, 1 => Just(7u8)], 0u8..4, prop::bool::weighted(0.5), prop::bool::weighted(0.15)), 1..26)).prop_map(|(policy, gran, phase, fe, cap_sel, steps)| Hist {
+    (0u8..4, 0u8..3, 0u8..4, 0u8..3, 0u8..3, prop::collection::vec((0u8..6, prop_oneof![12 => 0u8..7, 1 => Just(7u8)], 0u8..4, prop::bool::weighted(0.5), prop::bool::weighted(0.15), prop::bool::weighted(0.2)), 1..26)).prop_map(|(policy, gran, phase, fe, cap_sel, steps)| Hist {
         policy,
         gran: if policy == 0 { 0 } else { gran },
         phase,
         fe,
         cap_sel,
-        steps: steps.into_iter().map(|(advance, op, key, fire, fresh)| Step { advance, op, key, fire, fresh }).collect(),
+        steps: steps.into_iter().map(|(advance, op, key, fire, fresh, empty)| Step { advance, op, key, fire, fresh, empty }).collect(),
     })
 }
 
@@ -92,11 +95,11 @@ pub fn judge(root: &Path, h: &Hist) -> Result<Outcome, (String, String)> {
         let n_steps = h.steps.len();
         for si in 0..=n_steps {
             // the history always ends with a forced maintenance of every directory
-            let st = if si < n_steps { h.steps[si].clone() } else { Step { advance: 4, op: 6, key: 0, fire: false, fresh: false } };
+            let st = if si < n_steps { h.steps[si].clone() } else { Step { advance: 4, op: 6, key: 0, fire: false, fresh: false, empty: false } };
             world.advance_clock(ADVANCES[st.advance as usize % ADVANCES.len()]);
             let vnow = if emu.is_some() { world.clock() } else { now_ns() };
             let ks = key_spec(st.key);
-            let val = Val::new(&ks.name, 1, si as u32, 17);
+            let val = if st.empty { Val::new(&ks.name, EMPTY_WRITER, si as u32, 0) } else { Val::new(&ks.name, 1, si as u32, 17) };
             let ctx = || format!("step {} op {} key {} [policy {} gran {}ns fe {} cap {}]", si, st.op, ks.name, h.policy, gran, h.fe, cap);
             let kind = match st.op {
                 0 => OpKind::Set,
@@ -279,7 +282,11 @@ pub fn judge(root: &Path, h: &Hist) -> Result<Outcome, (String, String)> {
                 }
                 enq.insert(ks.name.clone(), vnow);
                 content.insert(ks.name.clone(), val.clone());
-                if e.val.as_ref() != Some(&val) {
+                if st.empty {
+                    if e.size != 0 {
+                        return Err(("c09:content".into(), format!("{}: an empty value was written but the entry holds {} bytes", ctx(), e.size)));
+                    }
+                } else if e.val.as_ref() != Some(&val) {
                     return Err(("c09:content".into(), format!("{}: entry holds {:?}", ctx(), e.val.as_ref().map(|v| v.header()))));
                 }
             } else if let Some((ppath, pe)) = &existed_at {
